@@ -65,6 +65,11 @@ pub trait Property: Sync {
     fn expected_probes(&self) -> Vec<&'static str> {
         vec![]
     }
+    /// Real-time limit of one run (watchdog, `VERIF_RUN_LIMIT_S` overrides it). Only checks that
+    /// must wait in real time (a real Node) raise it.
+    fn run_limit_s(&self) -> u64 {
+        150
+    }
     /// Shrinking budget in seconds (0 disables shrinking, e.g. for very slow runs).
     fn shrink_budget_s(&self, tier: Tier) -> u64 {
         match tier {
@@ -259,7 +264,7 @@ pub fn worker_main(prop: &'static dyn Property, tier: Tier, base_seed: u64, widx
     {
         let current = current.clone();
         let out = out.to_path_buf();
-        let limit = Duration::from_secs(std::env::var("VERIF_RUN_LIMIT_S").ok().and_then(|s| s.parse().ok()).unwrap_or(150));
+        let limit = Duration::from_secs(std::env::var("VERIF_RUN_LIMIT_S").ok().and_then(|s| s.parse().ok()).unwrap_or(prop.run_limit_s()));
         std::thread::Builder::new()
             .name("watchdog".into())
             .spawn(move || loop {
@@ -556,7 +561,7 @@ pub fn replay_main(prop: &'static dyn Property, path: &Path) -> i32 {
     // Watchdog: a replayed run that does not return is itself the reproduction of a no-progress
     // violation.
     {
-        let limit = Duration::from_secs(std::env::var("VERIF_RUN_LIMIT_S").ok().and_then(|s| s.parse().ok()).unwrap_or(150));
+        let limit = Duration::from_secs(std::env::var("VERIF_RUN_LIMIT_S").ok().and_then(|s| s.parse().ok()).unwrap_or(prop.run_limit_s()));
         let id = prop.id();
         let p = path.to_path_buf();
         std::thread::spawn(move || {
